@@ -372,8 +372,8 @@ PROPS["C17"] = {
     "kani": {"prefix": "c17_", "files": ["c17_forwarding.rs", "obj.rs", "side.rs", "vm.rs", "interference.rs"], "timeout_quick": 1500, "timeout_thorough": 2400},
     "functions": ["object_forwarding::{attempt_to_forward, get_forwarding_status, forward_object, write_forwarding_pointer, read_forwarding_pointer, "
                   "spin_and_get_forwarded_object, clear_forwarding_bits, is_forwarded, is_forwarded_or_being_forwarded, forwarding_bits_offset_in_forwarding_pointer}"],
-    "explanation": "SEQUENTIAL KERNEL ONLY. Each protocol step is verified as a state transformer on the forwarding bits / forwarding word for three placements "
-                   "(bits on the side at a symbolic table position; bits = low bits of the pointer word; bits in the header byte below the reference) with all other header and "
+    "explanation": "SEQUENTIAL KERNEL ONLY. Each protocol step is verified as a state transformer on the forwarding bits / forwarding word for four placements "
+                   "(bits on the side at a symbolic table position; bits = low bits of the pointer word; bits in the TOP byte of the pointer word; bits in the header byte below the reference) with all other header and "
                    "side-table bits symbolic: attempt_to_forward returns the previous bits and moves 00 -> BEING_FORWARDED touching nothing else; a later tracer gets 10/11, "
                    "never 00, and changes nothing (so for any sequential order of N tracers exactly one copies); forward_object calls ObjectModel::copy exactly once, leaves "
                    "FORWARDED, and read_forwarding_pointer / spin_and_get_forwarded_object (stale 10 or 11) return exactly the winner's reference for every reference "
@@ -382,7 +382,7 @@ PROPS["C17"] = {
                    "MetadataSpec::compare_exchange_metadata that allows finitely many spurious failures reporting the unchanged field value (what a byte-wide cmpxchg does when another "
                    "thread changes a neighbouring field of the byte): it reports 'not forwarded' only if this very call moved 00 -> BEING_FORWARDED. "
                    "Not decided by this family and therefore assumed: atomicity of a single CAS / store and genuinely overlapping interleavings.",
-    "bounds": ["non-overlapping executions only; three metadata layouts"],
+    "bounds": ["non-overlapping executions only; four metadata layouts"],
     "assumptions": ["atomicity of each RMW and memory orderings (sequential semantics)", "new references fit FORWARDING_POINTER_MASK (8-byte aligned, below 2^56)",
                     "ObjectModel::copy returns a valid reference (symbolic) and does not touch the old object's forwarding state"],
     "trusted_base": ["kani::stub of global_side_metadata_base_address", "core::sync::atomic as modelled by Kani/CBMC",
